@@ -227,7 +227,7 @@ func checkC11(tier string) int {
 		gr := prng.Stream(seed, "c11", "gen", i)
 		// all optimisation levels run the same program, so the construct of the recorded -O 2 finding is avoided throughout
 		// a third of the programs may contain one out-of-domain operation: "whether and which run-time error occurs"
-		progs = append(progs, genOwnProgramFull(gr, i, true, i%2 == 0, i%3 == 0))
+		progs = append(progs, genOwnProgramFull(gr, i, false, i%2 == 0, i%3 == 0))
 	}
 	type task struct {
 		p    *HProg
